@@ -225,3 +225,13 @@ Theorem C10_coroutine_stack_kept : forall h o regs c itc b itb,
   (forall e, In e (log (cg (capply (CMut o regs) (crun h cinit)))) -> ev_addr e = b -> In e (log (cg (crun h cinit)))).
 Proof. exact coroutine_stack_kept. Qed.
 Print Assumptions C10_coroutine_stack_kept.
+
+(* companion of C10_stacktop_discipline: the placement of gc:setstacktop(0) BEFORE the error return
+   of coroutine.resume (scraped flag) is what the discipline rests on; with the other placement a
+   refused resume from the main program leaves the stack top stale and a later main-stack word
+   is outside every scan *)
+Theorem C10_stacktop_reset_needed :
+  exists h w, let cs := crun_gen false h cinit in
+    chain cs = [] /\ stacktop cs <> None /\ In w (mstack cs) /\ ~ In w (scanned cs []).
+Proof. exact stacktop_reset_needed. Qed.
+Print Assumptions C10_stacktop_reset_needed.
